@@ -218,12 +218,28 @@ func repoFrame() string {
 // stepFuel bounds every guarded library call (a typical render needs 10^3..10^4 steps).
 const stepFuel = 4_000_000
 
+// fuelOuts counts guarded calls stopped by the step fuel, guardMaxSteps is the most
+// steps any other guarded call used, both since the shard loop last reset them. A
+// case in which some call ran out of fuel while another call legitimately used a large
+// share of it is a case at the edge of the budget: which executions cross the edge
+// depends on the dimension varied (a shuffled map walk costs more steps), so such a
+// case gives no verdict (counted as heavy_case_no_verdict), never a violation.
+var fuelOuts int
+var guardMaxSteps int64
+
 // guard runs f, converting a panic into a Res.
 func guard(f func() Res) (res Res) {
 	simrt.Fuel = stepFuel
 	defer func() {
+		used := stepFuel - simrt.Fuel
 		simrt.Fuel = 0
-		if r := recover(); r != nil {
+		r := recover()
+		if r == simrt.ErrFuel {
+			fuelOuts++
+		} else if used > guardMaxSteps {
+			guardMaxSteps = used
+		}
+		if r != nil {
 			msg := fmt.Sprint(r)
 			if i := strings.Index(msg, "\nOriginal stacktrace"); i >= 0 {
 				msg = msg[:i]
